@@ -11,11 +11,11 @@ import (
 
 // Server is a client of cmd/ferretd.
 type Server struct {
-	mu    sync.Mutex
-	cp    *Coproc
-	path  string
-	libs  string
-	Uses  int64
+	mu      sync.Mutex
+	cp      *Coproc
+	path    string
+	libs    string
+	Uses    int64
 	Crashes int64
 }
 
